@@ -1,8 +1,8 @@
 (* Props/C05gen.v -- property C05, tied to the SOURCE: the state-passing translation of sequential_phragmen
    (pabutools/rules/phragmen.py; the recursive inner function `aux` becomes a fuelled `fix` that returns the final
    values of the objects it is handed; the PhragmenVoter objects are (ballot, load, multiplicity) triples),
-   regenerated on every run into Generated/PyCtrl.v by harness/vharness/pytrans_ctrl.py, EQUALS in its RESOLUTE
-   branch the hand model [phragmen_res] of Model/Phragmen.v that Props/C05.v is about.
+   regenerated on every run into Generated/PyCtrl.v by harness/vharness/pytrans_ctrl.py, EQUALS the hand models [phragmen_res] (resolute branch) and [phragmen_irr] (irresolute branch) of Model/Phragmen.v
+   that Props/C05.v (and C08, C13) are about.
    Only statements closed by [exact]; proofs in Proofs/PyCtrlPhragmenP.v.
    P = the profile as the rule models see it (one entry per ballot as enumerated, with its multiplicity);
    oloads / oinit / otb = the optional arguments initial_loads / initial_budget_allocation / tie_breaking (the key of the
@@ -38,6 +38,31 @@ Theorem C05gen_phragmen_resolute_total : forall (I : inst) (P : list aballot) ol
             gen_sequential_phragmen_res I P oloads oinit otb enum fuel = Ok W.
 Proof. exact gen_phragmen_res_total. Qed.
 Print Assumptions C05gen_phragmen_resolute_total.
+
+(* the IRRESOLUTE branch: every tied project is explored (depth first, in tie-breaking order) on value copies of the
+   voters, the candidates and the allocation; the allocations found are stored name-sorted and without duplicates:
+   exactly the model's [phragmen_irr] *)
+Theorem C05gen_phragmen_irresolute : forall (I : inst) (P : list aballot),
+  Forall (fun b => (0 < amul b)%nat) P ->
+  forall oloads oinit otb enum fuel Ws,
+  NoDup enum ->
+  match oloads with Some l => length l = length P | None => True end ->
+  phragmen_irr I P (match otb with None => tb_lexico | Some t => t end) enum
+               (match oloads with None => zero_loads P | Some l => l end) (alloc_or_empty oinit) = Some Ws ->
+  (fuel > length (phr_projects I enum (alloc_or_empty oinit)))%nat ->
+  gen_sequential_phragmen_irr I P oloads oinit otb enum fuel = Ok Ws.
+Proof. exact gen_phragmen_irr_eq. Qed.
+Print Assumptions C05gen_phragmen_irresolute.
+
+Theorem C05gen_phragmen_irresolute_total : forall (I : inst) (P : list aballot) oloads oinit otb enum fuel,
+  Forall (fun b => (0 < amul b)%nat) P -> NoDup enum ->
+  match oloads with Some l => length l = length P | None => True end ->
+  (fuel > length (phr_projects I enum (alloc_or_empty oinit)))%nat ->
+  exists Ws, phragmen_irr I P (match otb with None => tb_lexico | Some t => t end) enum
+                          (match oloads with None => zero_loads P | Some l => l end) (alloc_or_empty oinit) = Some Ws /\
+             gen_sequential_phragmen_irr I P oloads oinit otb enum fuel = Ok Ws.
+Proof. exact gen_phragmen_irr_total. Qed.
+Print Assumptions C05gen_phragmen_irresolute_total.
 
 (* aliasing, both branches: the caller's profile, initial loads and initial allocation are not mutated; the voters,
    the candidate set and the allocations that are changed in place are objects the function created *)
